@@ -419,12 +419,15 @@ def _shorten(rec):
 def finish(res, t0, level="model_checking", rule=""):
     known = [k for k in load_known() if k["property"] == res.pid]
     unknown = []
+    seen_known = {}
     for v in res.violations:
         k = match_known(v, known)
         if k:
-            print(f"KNOWN-FINDING: property={res.pid} {k['what']}")
+            seen_known[k["what"]] = seen_known.get(k["what"], 0) + 1
         else:
             unknown.append(v)
+    for what, cnt in seen_known.items():
+        print(f"KNOWN-FINDING: property={res.pid} {what} [{cnt} record(s) in this run]")
     cov = dict(states=max(res.states, 1), transitions=max(res.transitions, 1),
                traces_validated_against_impl=res.traces, samples=res.samples or ["(model checking only)"],
                evaluations=res.records, rule=rule, stages=res.notes, model_checking=res.mc)
@@ -599,9 +602,9 @@ def check_C10(res):
     return "requests signed by the harness's own RFC 8945 signer; variants: wrong secret, unknown key/algorithm, key-algorithm mismatch, MAC truncated to every length, time offsets around +-fudge, tampered covered octets, bad class/TTL, TSIG not last, other-data, error codes, maximal key/algorithm names; both MACs recomputed in TLC"
 
 
-def trace_stage(res, driver_args, module, name, tags, session_start=None, nshards=NSHARDS, deque=False, env=None):
+def trace_stage(res, driver_args, module, name, tags, session_start=None, nshards=NSHARDS, deque=False, env=None, driver_tail=()):
     path = tr(f"{res.pid}-{name.replace('/', '-')}-{res.seed}.ndjson")
-    run_driver(driver_args + [path])
+    run_driver(driver_args + [path] + list(driver_tail))
     v = validate_trace(path, module + ".tla", module + ".cfg", nshards=nshards, session_start=session_start, deque=deque, env=env)
     res.add_trace(name, v, path, own_tags=tags)
     os.remove(path)
@@ -704,7 +707,34 @@ def check_C22(res):
     return "(M) every history of inserts/removes over 6 nested names x 2 entry kinds (729 states) and over 2 classes: tree-with-pruning = abstract map, tree walk = longest suffix, iteration = entries, remove leaves other entries untouched; (G) one history per transition of that state graph replayed into the real HashMapTreeCatalog (quick: the 4-name graph) and (V) validated; random histories of 2-15 operations over three name pools (case variants, root entry) in 1-3 of the classes IN/CH/HS/NONE with all three entry kinds, probes = every pool name, x.<name>, an upper-case variant and an unrelated name in every class; SingleZoneCatalog probes"
 
 
+def check_C23(res):
+    q = res.tier == "quick"
+    run_mc(res, "MC_ZoneFile (context rules; include stack = textual inclusion)", "MC_ZoneFile.tla", "MC_ZoneFile_quick.cfg", workers=4)
+    trace_stage(res, ["zonefile", "render", res.seed, 700 if q else 40000], "TraceZoneFile", "zonefile/render", ["C23", "C23:wks-bit-order"])
+    res.assumptions += ["RFC 3597 generic RDATA is rendered with the hexadecimal digits in one word (the parser accepts only that; RFC 3597 allows several words - observation, not part of the check)",
+                        "TTLs are rendered as plain decimal seconds below 2^31"]
+    return "random record lists (17 RDATA shapes: A, CH A, NS/CNAME/PTR/MB/MG/MR/MD/MF, MX, TXT, AAAA, SOA, SRV, HINFO, MINFO, WKS, unknown types and known types in RFC 3597 generic form; classes IN/CH/HS/CLASS65280) rendered by an independent pretty-printer with random presentation per field: omitted/reordered TTL and class, omitted owner, relative names and '@' against the current $ORIGIN, $TTL, parentheses across lines with comments inside, blank and comment lines, quoted/unquoted strings, \\X and \\DDD escapes of arbitrary octets, CRLF, missing final newline, mixed-case mnemonics and TYPEnnn/CLASSnnn; 4% deliberately broken files (first record omits what cannot be inherited); the expected parse (owner, TTL, class, type, RDATA octets, line number) is computed by the context machine of ZoneFile.tla in TLC"
+
+
+def check_C24(res):
+    q = res.tier == "quick"
+    trace_stage(res, ["zonefile", "fuzz", res.seed, 6000 if q else 400000], "TraceZoneFile", "zonefile/fuzz", ["C24"])
+    trace_stage(res, ["zonefile", "render", res.seed + 17, 150 if q else 4000], "TraceZoneFile", "zonefile/render", ["C24"])
+    return "random octets (20%), token soups from zone-file vocabulary incl. NULL/OPT/TSIG and TYPE10/41/250 (40%), record skeletons with RFC 3597 generic RDATA of known types and random/near-valid hex and lengths (10%), oversized fields up to 70000 octets (10%), mutations of rendered valid files: truncate/insert/delete/overwrite/swap (20%); a parse slower than 20 s counts as non-termination; every yielded record is checked with Rdata!Valid in TLC; a case is non-trivial when the parser yields at least one item"
+
+
+def check_C25(res):
+    q = res.tier == "quick"
+    run_mc(res, "MC_ZoneFile (include stack = textual inclusion)", "MC_ZoneFile.tla", "MC_ZoneFile_quick.cfg" if q else "MC_ZoneFile.cfg", workers=4 if q else 8)
+    run_mc(res, "MC_ZoneFile/mutant (includer's origin not restored)", "MC_ZoneFile.tla", "MC_ZoneFile_mutant.cfg", workers=2, expect_violation="Equiv")
+    scratch = os.path.join(OUT, "zf")
+    os.makedirs(scratch, exist_ok=True)
+    trace_stage(res, ["zonefile", "fs", res.seed, 300 if q else 10000], "TraceZoneFile", "zonefile/fs", ["C25"], driver_tail=[scratch])
+    return "(M) all trees of three files over a 7-item alphabet + includes with/without origin, depth limits 0-2: the stack of per-file parsers (new_for_include, update_context_from_include) yields exactly what textual inclusion with origin save/restore yields; (V) random trees of 1-6 files in nested directories (top, top/sub, top/sub/deeper, x, x/y) with relative include paths that climb out of the includer's directory, include origins, context-dependent records after includes, depth limits 0-4, missing files (10%), decoy files where a path resolved against the wrong directory would land; fs::Parser output (file, line, record) against ZoneFile!ParseTree"
+
+
 CHECKS = {
+    "C23": check_C23, "C24": check_C24, "C25": check_C25,
     "C22": check_C22,
     "C06": check_C06, "C20": check_C20, "C21": check_C21,
     "C11": check_C11,
